@@ -100,3 +100,12 @@ package amounts
 //@   loop 1 invariant (forall k Key :: {$seen[k]} $seen[k] ==> !pred(k)) ==> res == 0.0
 //@   loop 1 invariant forall k Key :: {$seen[k]} $seen[k] && pred(k) && (forall o Key :: {key(am, o)} (o in am) && o != k ==> !pred(o)) ==> res == am[k]
 //@   loop 1 invariant forall k Key :: {key(am, k)} (k in am) && !$seen[k] && pred(k) && (forall o Key :: {key(am, o)} (o in am) && o != k ==> !pred(o)) ==> res == 0.0
+//
+// Index: a fresh slice holding keys of the map (sorted by the comparator when one is given: sort.Slice, trusted).
+//@ func (Amounts).Index
+//@   modifies nothing
+//@   ensures fresh(result)
+//@   ensures @keys: forall i int :: {result[i]} 0 <= i && i < len(result) ==> (result[i] in am)
+//@   loop 1 invariant fresh(index)
+//@   loop 1 invariant forall i int :: {index[i]} 0 <= i && i < len(index) ==> (index[i] in am)
+
